@@ -167,7 +167,7 @@ impl KRange {
     pub fn size(&self) -> Option<usize> {
         if self.is_bounded() {
             let range = self.as_bounded_range();
-            Some(((range.end).max(range.start) - range.start) as usize)
+            Some((range.end).max(range.start).abs_diff(range.start) as usize)
         } else {
             None
         }
